@@ -221,6 +221,7 @@ class CrashWorld(World):
         self._last_key = None
         self.gstmt = 0  # statements of the live store since the run began
         self.kill_at = None  # (global statement number, mode): really die there (selftest crashstub)
+        self.diagnose = False  # diagnostic replay: compare the live view with the model after every op
         self.strict = True  # raise on the first failing crash point (C06); C18 turns this off
         self.evaluated = []
         self.t_open = None
@@ -513,7 +514,9 @@ class CrashWorld(World):
                     continue
                 o, j, _ = pt["found"]
                 nk = pt["n"]
-                if j >= nk:
+                # the discarded block must contain writes of operations that had already returned before this
+                # one was issued (an op whose own write merely did not happen is a functional matter)
+                if j >= nk or j >= pt.get("n_before", nk):
                     continue
                 hs = m.hashes[o]
                 if (hs[m.n] - hs[nk] + hs[j]) & MASK == hL:
@@ -581,6 +584,10 @@ class CrashWorld(World):
                 raise Violation("progress_after_restart", "after a crash and restart the store rejected a valid %s: %r" % (self.cur_op, out["exc"]), {"op": self.cur_op})
             raise Abandon("valid %s raised %r" % (self.cur_op, out["exc"]), "C02")
         m.returned(bucket_level, self.autocommit)
+        if self.diagnose and self.live_hash() != m.hashes[ORDERS[0]][m.n]:
+            # diagnostic replay (reads after every op): what the live connection shows is not what the
+            # reference write log says this operation did -- a functional defect, not a crash matter
+            raise Abandon("after %s the live store differs from the reference write log (functional defect)" % self.cur_op, "C02")
         pt = self.crash_point("return")
         pt["t_issue"] = t_issue
         pt["n_before"] = n_before
